@@ -395,6 +395,42 @@ pub fn gen_tag(r: &mut Rng, vr: VR) -> Tag {
     }
 }
 
+/// replace one character of some LO/SH/PN/UC/LT/ST/UT values by a 2-, 3- or 4-byte character (recorded length updated)
+fn utf8_text(r: &mut Rng, nodes: &mut [Node]) {
+    let swap = |r: &mut Rng, t: &str| -> String {
+        let mut cs: Vec<char> = t.chars().collect();
+        if cs.is_empty() {
+            return t.to_string();
+        }
+        let k = r.usize(0, cs.len() - 1);
+        if cs[k] != '\\' && cs[k] != '^' && cs[k] != '=' {
+            cs[k] = *r.pick(&['é', 'Ж', '€', '乗', '😀']);
+        }
+        cs.into_iter().collect()
+    };
+    for n in nodes.iter_mut() {
+        match n {
+            Node::El { vr, len, val, .. } if matches!(*vr, VR::LO | VR::SH | VR::PN | VR::UC | VR::LT | VR::ST | VR::UT) && r.chance(1, 2) => {
+                let new = match &*val {
+                    PrimitiveValue::Str(t) => Some(PrimitiveValue::Str(swap(r, t))),
+                    PrimitiveValue::Strs(ts) => Some(PrimitiveValue::Strs(ts.iter().map(|t| if r.chance(1, 2) { swap(r, t) } else { t.clone() }).collect())),
+                    _ => None,
+                };
+                if let Some(v) = new {
+                    *len = v.calculate_byte_len() as u32;
+                    *val = v;
+                }
+            }
+            Node::Sq { items, .. } => {
+                for (_, els) in items.iter_mut() {
+                    utf8_text(r, els);
+                }
+            }
+            _ => {}
+        }
+    }
+}
+
 #[derive(Clone, Copy, Debug)]
 pub struct GenOpts {
     pub max_depth: u32,
@@ -443,7 +479,17 @@ pub fn gen_dataset(r: &mut Rng, depth: u32, o: &GenOpts) -> Vec<Node> {
     }
     if o.charset && depth == 0 && r.chance(1, 8) {
         let tag = Tag(0x0008, 0x0005);
-        let val = strs(vec![r.pick(&["ISO_IR 100", "ISO_IR 192", "ISO_IR 6"]).to_string()]);
+        let code = r.pick(&["ISO_IR 100", "ISO_IR 192", "ISO_IR 6"]).to_string();
+        if code == "ISO_IR 192" {
+            // UTF-8 declared: text under the VRs governed by Specific Character Set may leave ASCII, at every depth
+            // (the encoded bytes are the UTF-8 bytes, so the byte-level models apply unchanged)
+            let mut vals: Vec<Node> = m.values().cloned().collect();
+            utf8_text(r, &mut vals);
+            for n in vals {
+                m.insert(n.tag(), n);
+            }
+        }
+        let val = strs(vec![code]);
         let len = val.calculate_byte_len() as u32;
         m.insert(tag, Node::El { tag, vr: VR::CS, len, val });
     }
